@@ -347,7 +347,7 @@ class Explorer:
         if isinstance(v, BoxV):
             return self.rtype(v.cell.v)
         if isinstance(v, ArcV):
-            return 'Arc<%s>' % self.rtype(v.cell.v.value)
+            return 'Arc<%s>' % self.rtype(v.cell.v.value.v)
         if isinstance(v, Closure):
             return v.tyname
         if isinstance(v, FnItem):
@@ -392,7 +392,9 @@ class Explorer:
             self.events.append(('arc_dec', inner.label, n))
             if n == 0:
                 v.cell.v = MOVED
-                self.drop_value(inner.value)
+                pointee = inner.value.v
+                inner.value.v = MOVED
+                self.drop_value(pointee)
             else:
                 v.cell.v = ArcInner(inner.value, n, inner.label)
             return
@@ -1249,7 +1251,7 @@ def dispatch(ex: Explorer, frame: Frame, callee: str, args: List[Any]):
                 if isinstance(v0, BoxV):
                     v0 = v0.cell.v
                 if isinstance(v0, ArcV):
-                    v0 = v0.cell.v.value
+                    v0 = v0.cell.v.value.v
                 if isinstance(v0, Native):
                     nh = ex.natives.get(v0.rty, {})
                     fn = nh.get('%s::%s' % (tr, method)) or nh.get(method)
